@@ -231,6 +231,32 @@ func runC17(c *ctx, r *Report) error {
 	}
 	r.Rule = fmt.Sprintf("all strings of length ≤ %d over the %d-symbol alphabet %q, all strings of length ≤ %d over that alphabet plus %q, %d random strings of length 6–24; each through ValidateRefGlob and ValidatePathGlob; model (aldriver glob) output compared item by item (column, message template, named character); non-trivial = distinct (mode, pattern) with a non-empty verdict list or accepted pattern of length ≥ 2", maxLen, len(alpha), alpha, maxLenExtra, extra, nRandom)
 	var b batch
+	// AL.Props.C17 validate_iff_partial / validate_complete_strict: the model reports a pattern iff it violates the
+	// documented syntax (BOM-leading patterns aside). A verdict difference is therefore a pattern that the
+	// implementation reports although it is well formed, or accepts although it is not.
+	b.judge = func(cs Case) (string, string) {
+		if strings.HasPrefix(unhx(cs.Input["pattern_hex"]), "\ufeff") {
+			return "", ""
+		}
+		iok, mok := cs.Impl == "ok", cs.Model == "ok"
+		switch {
+		case iok && !mok:
+			return "accepts-invalid-pattern", "a pattern that violates the documented glob syntax is accepted (the proved model reports " + cs.Model + ")"
+		case !iok && mok:
+			return "reports-valid-pattern", "a pattern that satisfies the documented glob syntax is reported (" + cs.Impl + ")"
+		}
+		return "", ""
+	}
+	b.srcOf = func(cs Case) string { return unhx(cs.Input["pattern_hex"]) }
+	b.rerun = func(orig Case, pat string) (string, string, Case) {
+		mode := strings.TrimPrefix(orig.Op, "glob ")
+		errs := actionlint.ValidatePathGlob(pat)
+		if mode == "ref" {
+			errs = actionlint.ValidateRefGlob(pat)
+		}
+		canon, _, _ := canonGlob(errs)
+		return "glob " + mode + " " + hx(pat), canon, Case{Op: orig.Op, Input: map[string]string{"pattern_hex": hx(pat), "pattern": strconv.Quote(pat)}}
+	}
 	seen := map[string]bool{}
 	one := func(pat string) {
 		if seen[pat] {
